@@ -119,7 +119,9 @@ def run_case(item):
         res["perms"] = str(perms)
         res["ref"] = ref
         if out.sympy != ref:
-            res["det"].append(f"permute{perms} differs from the transpositions applied one after another")
+            # not a verdict: the two may differ by the canonical form of an identically
+            # vanishing tensor entry; the z3 comparison below decides
+            res["structural_mismatch"] = f"permute{perms} vs the transpositions applied one after another"
     elif op == "subs":
         allidx = sorted(term.atoms(Index), key=lambda s: (s.space, s.spin, s.name))
         m = {}
@@ -160,7 +162,9 @@ def run_case(item):
         res["map"] = str(m)
         res["ref"] = ref
         if out.sympy != ref:
-            res["det"].append(f"ordered substitution list for {m} differs from the simultaneous substitution")
+            # not a verdict (e.g. -d^{k}_{k} vs d^{k}_{k} for a bra-ket antisymmetric d: both
+            # vanish identically); the z3 comparison below decides
+            res["structural_mismatch"] = f"ordered substitution list for {m} vs the simultaneous substitution"
     else:
         raise ValueError(op)
     res["out"] = str(out)
